@@ -506,36 +506,62 @@ static void op_grant_deny(std::mt19937_64& rng, bool thorough)
     }
     ev.finish(outc, ab.zones_ok(), effect, at);
   }
-  // copy_memory_or_deny_access: sandbox buffer -> freshly allocated application memory
+  // copy_memory_or_deny_access: sandbox buffer -> freshly allocated application memory; on the
+  // backend variant with the grant / deny interface a second pass in which the backend ACCEPTS:
+  // the raw pointer handed back stands for `count` whole elements inside the sandbox
+#ifdef VM_GRANT_DENY
+  const int npass = 2;
+#else
+  const int npass = 1;
+#endif
+  for (int pass = 0; pass < npass; pass++)
   for (long st : STARTS) {
     for (W x : extents(thorough)) {
       if (x > SIZE + 2 || x == 0) {
         continue; // (extents beyond the region make the driver's own malloc fail or huge: not meaningful)
       }
-      for (int variant = 0; variant < 2; variant++) {
-        fill(rng);
-        snap();
-        Ev ev("copy_memory_or_deny_access", variant == 0 ? "char" : "char16_t");
-        long es = variant == 0 ? 1 : 2;
-        if (variant == 1 && st > 0 && st % 2 != 0) {
+      for (int variant = 0; variant < 4; variant++) {
+        static const char* VN[] = { "char", "char16_t", "float", "double" };
+        static const long ES[] = { 1, 2, 4, 8 };
+        long es = ES[variant];
+        if (variant >= 1 && st > 0 && st % 2 != 0) {
           continue;
         }
+        if (variant >= 2 && x > 600 && x < SIZE - 4) {
+          continue; // (wide elements: the small and the boundary counts)
+        }
+        fill(rng);
+        snap();
+        Ev ev("copy_memory_or_deny_access", (std::string(VN[variant]) + (pass == 1 ? "/deny accepted" : "")).c_str());
         ev.range("sbx", st, x * es);
         bool copied = false;
         void* got = nullptr;
+#ifdef VM_GRANT_DENY
+        Sbx::deny_mode = pass;
+#endif
         const char* r = guarded([&] {
           if (variant == 0) {
             got = copy_memory_or_deny_access(*sb, ptr_at<char>(st), (size_t)x, false, copied);
-          } else {
+          } else if (variant == 1) {
             got = copy_memory_or_deny_access(*sb, ptr_at<char16_t>(st), (size_t)x, false, copied);
+          } else if (variant == 2) {
+            got = copy_memory_or_deny_access(*sb, ptr_at<float>(st), (size_t)x, false, copied);
+          } else {
+            got = copy_memory_or_deny_access(*sb, ptr_at<double>(st), (size_t)x, false, copied);
           }
         });
+#ifdef VM_GRANT_DENY
+        Sbx::deny_mode = 0;
+#endif
         bool effect = true;
+        bool in_region = got != nullptr && reinterpret_cast<uintptr_t>(got) >= BASE && reinterpret_cast<uintptr_t>(got) < BASE + SIZE;
         if (std::strcmp(r, "ok") == 0 && got != nullptr && st >= 0 && x * es <= SIZE - st) {
-          effect = copied && std::memcmp(got, MEM + st, (size_t)(x * es)) == 0;
+          effect = pass == 1 ? (!copied && got == MEM + st) : (copied && std::memcmp(got, MEM + st, (size_t)(x * es)) == 0);
         }
         ev.e.boolean("nullstart", st < 0);
-        std::free(got);
+        if (!in_region) {
+          std::free(got); // (a buffer inside the region is the sandbox's own memory handed back)
+        }
         ev.finish(r, true, effect, st);
       }
     }
@@ -568,6 +594,14 @@ int main(int argc, char** argv)
   other = &o1;
   BASE = sandbox.get_sandbox_impl()->base;
   MEM = sandbox.get_sandbox_impl()->mem();
+#ifdef VM_GRANT_DENY
+  // the variant with the grant / deny interface only repeats the operations that use it
+  op_grant_deny(rng, thorough);
+  o1.destroy_sandbox();
+  sandbox.destroy_sandbox();
+  out.close();
+  return 0;
+#endif
   op_memset(rng, thorough);
   op_memcpy(rng, thorough);
   op_memcmp(rng, thorough);
